@@ -114,23 +114,38 @@ def run(seed, tier, replay=None):
         rep.count("N=%d" % (N if N < 10 else 10 * (N // 10) if N < 100 else 1000))
         rep.count("weights=" + ("none" if ws is None else "given"))
         rep.count("ties" if len(set(ys)) < N else "distinct")
+        # one ndarray object per case, shared by all curve calls in the order a user would make them (naive, u, v, average):
+        # a call that modifies its argument in place corrupts the later curves
+        shared = np.array(ns_int)
         for mn in (False, True):
+            if ws is None and finite:
+                reqs.append(("emp.naive", f"{dl} {int(mn)} {C.ilist(ns_int)}")); meta.append((ci, "naive", d, mn, ns_int, inp, tol, shared))
+                reqs.append(("emp.u", f"{dl} {int(mn)} {C.ilist(ns_int)}")); meta.append((ci, "u", d, mn, ns_int, inp, tol, shared))
+                reqs.append(("emp.v", f"{dl} {int(mn)} {C.ilist(ns_int)}")); meta.append((ci, "v", d, mn, ns_int, inp, tol, shared))
             if N <= 64:
-                reqs.append(("emp.avg", f"{dl} {int(mn)} {C.ilist(ns_int)}")); meta.append((ci, "avg", d, mn, ns_int, inp, tol))
-                reqs.append(("emp.levels", dl)); meta.append((ci, "avg_real", d, mn, ns_real, inp, tol))
+                reqs.append(("emp.avg", f"{dl} {int(mn)} {C.ilist(ns_int)}")); meta.append((ci, "avg", d, mn, ns_int, inp, tol, shared))
+                reqs.append(("emp.levels", dl)); meta.append((ci, "avg_real", d, mn, ns_real, inp, tol, None))
                 # quantile curve: levels computed here with the *specified* formula in numpy arithmetic
                 lv = []
                 for n in ns_int[:4] + ns_real[:4]:
                     for q in qs:
                         level = float(1 - (1 - q) ** (1 / n)) if mn else float(q ** (1 / n))
                         lv.append((n, q, min(1.0, max(0.0, level))))
-                reqs.append(("emp.ppf", f"{dl} {C.flist([x[2] for x in lv])}")); meta.append((ci, "qtc", d, mn, lv, inp, tol))
-            if ws is None and finite:
-                reqs.append(("emp.naive", f"{dl} {int(mn)} {C.ilist(ns_int)}")); meta.append((ci, "naive", d, mn, ns_int, inp, tol))
-                reqs.append(("emp.v", f"{dl} {int(mn)} {C.ilist(ns_int)}")); meta.append((ci, "v", d, mn, ns_int, inp, tol))
-                reqs.append(("emp.u", f"{dl} {int(mn)} {C.ilist(ns_int)}")); meta.append((ci, "u", d, mn, ns_int, inp, tol))
+                reqs.append(("emp.ppf", f"{dl} {C.flist([x[2] for x in lv])}")); meta.append((ci, "qtc", d, mn, lv, inp, tol, None))
     replies = drv.run(reqs)
-    for (ci, kind, d, mn, ns, inp, tol), r in zip(meta, replies):
+    # clause "v_tuning_curve(n) equals average_tuning_curve(n)" on the model side: the two exact formulas must agree exactly
+    exact = {}
+    for (ci, kind, d, mn, ns, inp, tol, shared), r in zip(meta, replies):
+        if r is not None and kind in ("avg", "v"):
+            exact[(ci, kind, mn)] = (ns, r)
+    for (ci, kind, mn), (ns, r) in exact.items():
+        if kind == "v" and (ci, "avg", mn) in exact and exact[(ci, "avg", mn)][0] == ns:
+            ra = exact[(ci, "avg", mn)][1]
+            rep.case(("v==avg", ci, mn))
+            if list(r) != list(ra):
+                rep.disagree(op="emp.v vs emp.avg", note="the exact V-statistic and the exact average curve of an unweighted sample differ "
+                             "(they are equal mathematically: the tied-block weights telescope)", case=ci, minimize=mn, v=r[:3], avg=ra[:3])
+    for (ci, kind, d, mn, ns, inp, tol, shared), r in zip(meta, replies):
         ys, ws, a, b = cases[ci]
         if r is None:
             rep.disagree(case=ci, op=kind, note="model rejected a valid input", input=inp)
@@ -139,7 +154,7 @@ def run(seed, tier, replay=None):
             warnings.simplefilter("ignore")
             try:
                 if kind == "avg":
-                    impl = d.average_tuning_curve(np.array(ns, dtype=float), minimize=mn)
+                    impl = d.average_tuning_curve(shared, minimize=mn)
                     mods = [C.parse_ext(t) for t in r]
                 elif kind == "avg_real":
                     impl = d.average_tuning_curve(np.array(ns, dtype=float), minimize=mn)
@@ -152,7 +167,7 @@ def run(seed, tier, replay=None):
                     mods = [(C.parse_ext(r[2 * i]), C.parse_ext(r[2 * i + 1])) for i in range(len(ns))]
                 else:
                     f = dict(naive=d.naive_tuning_curve, v=d.v_tuning_curve, u=d.u_tuning_curve)[kind]
-                    impl = f(np.array(ns), minimize=mn)
+                    impl = f(shared, minimize=mn)
                     mods = [C.parse_ext(t) for t in r]
             except Exception as e:
                 rep.violate(what=f"{kind} curve raised on a valid input", error=repr(e), input=dict(inp, ns=[float(x) if not isinstance(x, tuple) else x[0] for x in ns], minimize=mn))
@@ -209,6 +224,9 @@ def run(seed, tier, replay=None):
                 if fk:
                     v["finding_key"] = fk
                 rep.violate(**v)
+        if shared is not None and not np.array_equal(shared, np.array(ns)):
+            rep.violate(what=f"{call} modified the caller's ns array in place (later curves evaluated on the same array are then wrong)",
+                        input=dict(inp, ns=[int(x) for x in ns], minimize=mn), observed=[int(x) for x in shared], call=f"EmpiricalDistribution.{call}")
         # scalar n gives a scalar
         if kind in ("avg", "naive", "v", "u"):
             f = dict(avg=d.average_tuning_curve, naive=d.naive_tuning_curve, v=d.v_tuning_curve, u=d.u_tuning_curve)[kind]
